@@ -259,14 +259,14 @@ Proof.
   intros Hne F. unfold sparse_entries.
   rewrite (mapM_ok py_iter (fun j => match j with JArr l => l | _ => [] end)).
   2:{ intros x Hx. apply in_map_iff in Hx. destruct Hx as [[[a b] v] [E _]]. subst. reflexivity. }
-  rewrite map_map. simpl.
+  rewrite map_map. cbn [bind].
   assert (A : forallb (fun l => (3 <=? length l)%nat)
                 (map (fun x => match jtriple x with JArr l => l | _ => [] end) ts) = true).
   { apply forallb_forall. intros l Hl. apply in_map_iff in Hl. destruct Hl as [[[a b] v] [E _]]. subst. reflexivity. }
   assert (B : existsb (fun l => (length l =? 3)%nat)
                 (map (fun x => match jtriple x with JArr l => l | _ => [] end) ts) = true).
   { destruct ts as [|[[a b] v] ts']; [contradiction|]. reflexivity. }
-  rewrite A, B. simpl.
+  rewrite A, B. cbn [andb].
   rewrite (mapM_ok _ (fun l => match l with
                                | [JInt a; JInt b; JFlt v] => (Z.to_nat a, Z.to_nat b, v)
                                | _ => (0%nat, 0%nat, 0) end)).
@@ -295,4 +295,175 @@ Proof.
       with (bind (sparse_entries (length m) nc (map jtriple ((a, b, v) :: ts)))
                  (fun ts0 => ROk (dense_of_triples (length m) nc ts0))).
     rewrite S. simpl. f_equal. exact RT.
+Qed.
+
+(* ------------------------------------------------------------------ tree-level round trip *)
+Lemma ids_of_records ids : forall mdl, length mdl = length ids ->
+  mapM (fun r => py_getitem r (K "id")) (map (fun p => jrecord (fst p) (snd p)) (combine ids mdl))
+  = ROk (map JStr ids).
+Proof.
+  induction ids as [|x t IH]; intros [|m mdl] H; simpl in H; try discriminate; [reflexivity|].
+  cbn [combine map mapM fst snd]. rewrite IH by lia.
+  reflexivity.
+Qed.
+
+Lemma mds_of_records ids : forall mdl, length mdl = length ids ->
+  mapM (fun r => py_getitem r (K "metadata")) (map (fun p => jrecord (fst p) (snd p)) (combine ids mdl))
+  = ROk mdl.
+Proof.
+  induction ids as [|x t IH]; intros [|m mdl] H; simpl in H; try discriminate; [reflexivity|].
+  cbn [combine map mapM fst snd]. rewrite IH by lia.
+  reflexivity.
+Qed.
+
+Lemma md_list_length n md : md_len md n -> length (md_list n md) = n.
+Proof. destruct md; simpl; intros H; [exact H|apply repeat_length]. Qed.
+
+Lemma existsb_truthy_nulls n : existsb py_truthy (repeat JNull n) = false.
+Proof. induction n; simpl; auto. Qed.
+
+Lemma cast_md_written n md : md_objs md -> cast_md (md_list n md) = ROk (md_canon md).
+Proof.
+  destruct md as [l|]; simpl; intros H.
+  - unfold cast_md. destruct (existsb py_truthy l) eqn:E; cbn [negb]; [|reflexivity].
+    rewrite (mapM_ok _ (fun x => x)).
+    + rewrite map_id. reflexivity.
+    + intros x Hx. rewrite Forall_forall in H. specialize (H x Hx). destruct x; try discriminate. reflexivity.
+  - unfold cast_md. rewrite existsb_truthy_nulls. reflexivity.
+Qed.
+
+Lemma as_str_strs ids : mapM as_str (map JStr ids) = ROk ids.
+Proof. induction ids as [|x t IH]; simpl; [reflexivity|]. rewrite IH. reflexivity. Qed.
+
+Lemma element_type_known c :
+  existsb (fun t => py_eq (JStr (element_type c)) (JStr t)) ELEMENT_TYPES_TABLE = true.
+Proof. unfold element_type. destruct ((0 <? jnobs c)%nat && (0 <? jnsamp c)%nat); reflexivity. Qed.
+
+Lemma w_columns_balanced c : (jnobs c = 0 <-> jnsamp c = 0)%nat ->
+  w_columns c = JArr (jrecords (j_sids c) (j_smd c)).
+Proof.
+  intros H. unfold w_columns. destruct (Nat.eqb_spec (jnobs c) 0) as [E|E]; [|reflexivity].
+  apply H in E. unfold jnsamp in E. destruct (j_sids c); [reflexivity|discriminate].
+Qed.
+
+(* C02 core: reading back the tree the writer produces gives the table it was written from *)
+Theorem json_tree_roundtrip c tid :
+  wfj c -> (jnobs c = 0 <-> jnsamp c = 0)%nat -> from_json (to_json_tree c tid) = ROk (canon_jt c).
+Proof.
+  intros (W1 & W2 & W3 & W4 & W5 & W6 & W7 & W8) Hbal.
+  unfold from_json, to_json_tree.
+  change (py_getitem (JObj (to_json_fields c tid)) (K "columns")) with (ROk (A := json) (w_columns c)).
+  rewrite (w_columns_balanced c Hbal). cbn [bind py_iter].
+  unfold jrecords.
+  rewrite ids_of_records by (apply md_list_length; exact W6). cbn [bind].
+  rewrite mds_of_records by (apply md_list_length; exact W6). cbn [bind].
+  change (py_getitem (JObj (to_json_fields c tid)) (K "rows")) with (ROk (A := json) (w_rows c)).
+  unfold w_rows, jrecords. cbn [bind py_iter].
+  rewrite ids_of_records by (apply md_list_length; exact W5). cbn [bind].
+  rewrite mds_of_records by (apply md_list_length; exact W5). cbn [bind].
+  change (py_getitem (JObj (to_json_fields c tid)) (K "matrix_element_type"))
+    with (ROk (A := json) (JStr (element_type c))).
+  cbn [bind py_hashable]. rewrite element_type_known. cbn [bind].
+  change (py_in (K "matrix_type") (JObj (to_json_fields c tid))) with (ROk (A := bool) true).
+  cbn [bind].
+  change (py_getitem (JObj (to_json_fields c tid)) (K "matrix_type")) with (ROk (A := json) (JStr (K "sparse"))).
+  cbn [bind].
+  change (py_eq (JStr (K "sparse")) (JStr (K "dense"))) with false.
+  change (py_getitem (JObj (to_json_fields c tid)) (K "type")) with (ROk (A := json) (j_type c)).
+  change (py_getitem (JObj (to_json_fields c tid)) (K "data"))
+    with (ROk (A := json) (JArr (map jtriple (triples (j_mat c))))).
+  change (py_getitem (JObj (to_json_fields c tid)) (K "date")) with (ROk (A := json) (j_date c)).
+  change (py_getitem (JObj (to_json_fields c tid)) (K "shape"))
+    with (ROk (A := json) (JArr [JInt (Z.of_nat (jnobs c)); JInt (Z.of_nat (jnsamp c))])).
+  change (py_getitem (JObj (to_json_fields c tid)) (K "generated_by")) with (ROk (A := json) (j_genby c)).
+  cbn [bind]. rewrite !map_length.
+  fold (jnobs c). fold (jnsamp c). rewrite <- W1.
+  rewrite (to_sparse_written (jnsamp c) (j_mat c) W2). cbn [bind].
+  rewrite !as_str_strs. cbn [bind].
+  assert (D1 : str_dup (j_oids c) = false) by (apply str_dup_false_NoDup; exact W3).
+  assert (D2 : str_dup (j_sids c) = false) by (apply str_dup_false_NoDup; exact W4).
+  rewrite D1, D2. cbn [orb bind].
+  rewrite (cast_md_written _ _ W8). cbn [bind].
+  rewrite (cast_md_written _ _ W7). cbn [bind].
+  reflexivity.
+Qed.
+
+Corollary json_tree_roundtrip_normal c tid :
+  wfj c -> (jnobs c = 0 <-> jnsamp c = 0)%nat -> md_normal (j_omd c) -> md_normal (j_smd c) ->
+  from_json (to_json_tree c tid) = ROk c.
+Proof.
+  intros W B N1 N2. rewrite json_tree_roundtrip by assumption. f_equal.
+  unfold canon_jt. destruct c as [o s m omd smd ty gb dt]; simpl in *.
+  f_equal.
+  - destruct omd as [l|]; simpl in *; [rewrite N1|]; reflexivity.
+  - destruct smd as [l|]; simpl in *; [rewrite N2|]; reflexivity.
+Qed.
+
+(* ------------------------------------------------------------------ the two writers *)
+Lemma jget_In kv : forall k v, NoDup (map fst kv) -> (jget kv k = Some v <-> In (k, v) kv).
+Proof.
+  induction kv as [|[k' v'] t IH]; intros k v N; simpl.
+  - split; [discriminate|tauto].
+  - inversion N as [|? ? Hn N']; subst. destruct (str_eqb k k') eqn:E.
+    + apply str_eqb_eq in E. subst k'. split.
+      * intros H. inversion H; subst. left; reflexivity.
+      * intros [H|H]; [inversion H; reflexivity|].
+        exfalso. apply Hn. apply in_map_iff. exists (k, v). split; [reflexivity|exact H].
+    + apply str_eqb_neq in E. rewrite (IH k v N'). split.
+      * intros H; right; exact H.
+      * intros [H|H]; [inversion H; congruence|exact H].
+Qed.
+
+Lemma jget_same_entries a b k :
+  NoDup (map fst a) -> NoDup (map fst b) -> (forall p, In p a <-> In p b) -> jget a k = jget b k.
+Proof.
+  intros Na Nb H. destruct (jget a k) as [v|] eqn:Ea.
+  - apply (jget_In a k v Na) in Ea. apply H in Ea. apply (jget_In b k v Nb) in Ea. symmetry. exact Ea.
+  - destruct (jget b k) as [v|] eqn:Eb; [|reflexivity].
+    apply (jget_In b k v Nb) in Eb. apply H in Eb. apply (jget_In a k v Na) in Eb. congruence.
+Qed.
+
+Definition KEYS12 : list str :=
+  [K "id"; K "format"; K "format_url"; K "matrix_type"; K "generated_by"; K "date"; K "type";
+   K "matrix_element_type"; K "shape"; K "data"; K "rows"; K "columns"].
+
+Lemma fields_keys c tid : map fst (to_json_fields c tid) = KEYS12.
+Proof. reflexivity. Qed.
+Lemma fields_direct_keys c tid :
+  map fst (to_json_fields_direct c tid) =
+  [K "id"; K "format"; K "format_url"; K "generated_by"; K "date"; K "matrix_element_type"; K "shape";
+   K "type"; K "matrix_type"; K "data"; K "rows"; K "columns"].
+Proof. reflexivity. Qed.
+
+Lemma keys12_nodup : NoDup KEYS12.
+Proof. apply str_dup_false_NoDup. vm_compute. reflexivity. Qed.
+
+Lemma fields_same_entries c tid p : In p (to_json_fields_direct c tid) <-> In p (to_json_fields c tid).
+Proof. unfold to_json_fields, to_json_fields_direct. cbn [In]. tauto. Qed.
+
+Lemma fields_perm c tid : Permutation (to_json_fields_direct c tid) (to_json_fields c tid).
+Proof.
+  apply NoDup_Permutation.
+  - apply (NoDup_map_inv fst). rewrite fields_direct_keys. apply str_dup_false_NoDup. vm_compute. reflexivity.
+  - apply (NoDup_map_inv fst). rewrite fields_keys. apply keys12_nodup.
+  - apply fields_same_entries.
+Qed.
+
+(* C02: the streamed writer and the string writer emit the same object: the same twelve
+   keys, each once, with the same value under every key (the order of keys differs) *)
+Theorem direct_io_same_doc c tid :
+  Permutation (to_json_fields_direct c tid) (to_json_fields c tid)
+  /\ NoDup (map fst (to_json_fields c tid)) /\ NoDup (map fst (to_json_fields_direct c tid))
+  /\ (forall k, jget (to_json_fields_direct c tid) k = jget (to_json_fields c tid) k)
+  /\ from_json (to_json_tree_direct c tid) = from_json (to_json_tree c tid).
+Proof.
+  pose proof (fields_perm c tid) as P.
+  assert (N1 : NoDup (map fst (to_json_fields c tid))) by (rewrite fields_keys; apply keys12_nodup).
+  assert (N2 : NoDup (map fst (to_json_fields_direct c tid))).
+  { eapply Permutation_NoDup; [|exact N1]. apply Permutation_map. apply Permutation_sym. exact P. }
+  assert (G : forall k, jget (to_json_fields_direct c tid) k = jget (to_json_fields c tid) k).
+  { intros k. apply jget_same_entries; try assumption.
+    intros p. split; apply Permutation_in; [exact P|apply Permutation_sym; exact P]. }
+  split; [exact P|]. split; [exact N1|]. split; [exact N2|]. split; [exact G|].
+  unfold from_json, to_json_tree, to_json_tree_direct, py_getitem, py_in. rewrite !G. reflexivity.
 Qed.
